@@ -256,7 +256,9 @@ def _judge(cs, root, S, R, ctx, prior, child_prior):
                         {**ctx, "history": h, "name": name, "bytes": len(data), "complete_bytes": None if want is None else len(want)},
                     )
     # follow-up commands on the crashed tree
-    for cmd, argv in (("info", [root]), ("verify", [root]), ("create", [root, "-h", "md5"])):
+    # (the commands after the complete create see a history that holds whatever the interrupted run left plus one more
+    # generation: it has to load as well)
+    for cmd, argv in (("info", [root]), ("verify", [root]), ("create", [root, "-h", "md5"]), ("verify", [root]), ("info", [root])):
         r = drive.run(cmd, argv)
         cs.evaluated()
         cs.count("followups")
